@@ -765,9 +765,8 @@ func (a *Agent) gatherCandidatesSrflxMapped(ctx context.Context, networkTypes []
 					Address:   mappedIP.String(),
 					Port:      currentAddr.Port,
 					Component: ComponentRTP,
-					RelAddr:   currentAddr.IP.String(),
-					RelPort:   currentAddr.Port,
 				}
+				srflxConfig.RelAddr, srflxConfig.RelPort = a.publishedRelatedAddress(currentAddr.IP.String(), currentAddr.Port)
 				c, err := NewCandidateServerReflexive(&srflxConfig)
 				if err != nil {
 					closeConnAndLog(currentConn, a.log, "failed to create server reflexive candidate: %s %s %d: %v",
@@ -858,9 +857,8 @@ func (a *Agent) gatherCandidatesSrflxUDPMux(ctx context.Context, urls []*stun.UR
 						Address:   ip.String(),
 						Port:      port,
 						Component: ComponentRTP,
-						RelAddr:   localAddr.IP.String(),
-						RelPort:   localAddr.Port,
 					}
+					srflxConfig.RelAddr, srflxConfig.RelPort = a.publishedRelatedAddress(localAddr.IP.String(), localAddr.Port)
 					c, err := NewCandidateServerReflexive(&srflxConfig)
 					if err != nil {
 						closeConnAndLog(conn, a.log, "failed to create server reflexive candidate: %s %s %d: %v", network, ip, port, err)
@@ -984,9 +982,8 @@ func (a *Agent) gatherCandidatesSrflx(ctx context.Context, urls []*stun.URI, net
 			Address:   ip.String(),
 			Port:      port,
 			Component: ComponentRTP,
-			RelAddr:   lAddr.IP.String(),
-			RelPort:   lAddr.Port,
 		}
+		srflxConfig.RelAddr, srflxConfig.RelPort = a.publishedRelatedAddress(lAddr.IP.String(), lAddr.Port)
 		c, err := NewCandidateServerReflexive(&srflxConfig)
 		if err != nil {
 			closeConnAndLog(conn, a.log, "failed to create server reflexive candidate: %s %s %d: %v", network, ip, port, err)
@@ -1417,17 +1414,27 @@ func findIfaceForIP(ifaces []ifaceAddr, ip net.IP) string {
 	return ""
 }
 
+// publishedRelatedAddress is the related address a gathered reflexive or relay candidate
+// advertises. In mDNS gather mode the local IP addresses are what is being hidden (host
+// candidates carry the mDNS name), so they must not travel as raddr either.
+func (a *Agent) publishedRelatedAddress(ip string, port int) (string, int) {
+	if a.mDNSMode == MulticastDNSModeQueryAndGather {
+		return "0.0.0.0", 0
+	}
+
+	return ip, port
+}
+
 func (a *Agent) createRelayCandidate(ctx context.Context, ep relayEndpoint, ip net.IP, onClose func() error) error {
 	relayConfig := CandidateRelayConfig{
 		Network:       ep.network,
 		Component:     ComponentRTP,
 		Address:       ip.String(),
 		Port:          ep.port,
-		RelAddr:       ep.relAddr,
-		RelPort:       ep.relPort,
 		RelayProtocol: ep.protocol,
 		OnClose:       onClose,
 	}
+	relayConfig.RelAddr, relayConfig.RelPort = a.publishedRelatedAddress(ep.relAddr, ep.relPort)
 	candidate, err := NewCandidateRelay(&relayConfig)
 	if err != nil {
 		a.log.Warnf("failed to create relay candidate: %s %d: %v", ip, ep.port, err)
